@@ -204,6 +204,21 @@ def updateState (st : State) (height : Int) (updates : List Val) : StepRes :=
       .ok { st with lastBlockHeight := height, nextValidators := nv',
                     validators := st.nextValidators, lastValidators := st.validators, lhvc := lhvc }
 
+/-! ### the `/validators` RPC -/
+
+/-- `rpc/core getHeight(latestUncommittedHeight(), heightPtr)`: the block store is at the state's
+height; the latest height is one above it unless the node is catching up; explicit heights must be
+within `[base, latest]` (`none` = the RPC answers with an error) -/
+def rpcHeight (st : State) (syncing : Bool) (h : Option Int) : Option Int :=
+  let latest := if syncing then st.lastBlockHeight else st.lastBlockHeight + 1
+  match h with
+  | none => some latest
+  | some x => if x ≤ 0 ∨ x > latest ∨ x < st.initialHeight then none else some x
+
+/-- `rpc/core.Validators`: the set is `StateStore.LoadValidators(height)`, reported under `height` -/
+def rpcValidators (db : DB) (st : State) (syncing : Bool) (h : Option Int) : Option (Int × LoadRes) :=
+  (rpcHeight st syncing h).map fun x => (x, loadValidators db.vals x)
+
 /-! ### Rollback -/
 
 inductive RbRes
